@@ -9,12 +9,20 @@ pub fn build(tree: &HNode) -> Result<G, GameError> {
     Game::from_root(tree.clone())
 }
 
-/// A key type whose `Hash` is legal but as weak as it gets: equal keys hash equally, and so do
-/// most unequal ones (only the parity of the length is hashed). The library is generic over its
-/// infoset, action and chance-infoset types (`Hash + Eq`); nothing may depend on hashes being
-/// distinct.
-#[derive(Clone, Debug, PartialEq, Eq)]
+/// A key type that is legal but unlike `String` in every way the library may not rely on:
+/// `Eq` is coarser than structural equality (names are compared ignoring ASCII case), and `Hash`
+/// - consistent with it - collides almost always (only the parity of the length is hashed). The
+/// library is generic over its infoset, action and chance-infoset types (`Hash + Eq`).
+#[derive(Clone, Debug)]
 pub struct WeakKey(pub String);
+
+impl PartialEq for WeakKey {
+    fn eq(&self, other: &Self) -> bool {
+        self.0.eq_ignore_ascii_case(&other.0)
+    }
+}
+
+impl Eq for WeakKey {}
 
 impl std::hash::Hash for WeakKey {
     fn hash<H: std::hash::Hasher>(&self, state: &mut H) {
@@ -22,27 +30,98 @@ impl std::hash::Hash for WeakKey {
     }
 }
 
-/// The harness tree presented with [WeakKey] names
-pub struct WNode(pub HNode);
+/// A name as [WeakKey] with the case of its letters flipped pseudo-randomly (per occurrence: two
+/// occurrences of one name generally differ as strings and are equal as keys)
+pub fn weak(name: &str, salt: &mut u64) -> WeakKey {
+    let mut out = String::with_capacity(name.len());
+    for c in name.chars() {
+        *salt = crate::rng::mix(*salt);
+        out.push(if *salt & 1 == 0 { c.to_ascii_uppercase() } else { c.to_ascii_lowercase() });
+    }
+    WeakKey(out)
+}
+
+/// An iterator adaptor that hides the length of the underlying iterator (`size_hint` = (0, None))
+pub struct NoHint<I>(pub I);
+
+impl<I: Iterator> Iterator for NoHint<I> {
+    type Item = I::Item;
+    fn next(&mut self) -> Option<I::Item> {
+        self.0.next()
+    }
+}
+
+/// The harness tree presented through [WeakKey] names in random case and through child iterators
+/// that are not `Vec`s and give no size hint
+pub struct WNode(pub HNode, pub u64);
 
 impl cfr::IntoGameNode for WNode {
     type PlayerInfo = WeakKey;
     type Action = WeakKey;
     type ChanceInfo = WeakKey;
-    type Outcomes = Vec<(f64, WNode)>;
-    type Actions = Vec<(WeakKey, WNode)>;
+    type Outcomes = NoHint<std::vec::IntoIter<(f64, WNode)>>;
+    type Actions = NoHint<std::vec::IntoIter<(WeakKey, WNode)>>;
 
     fn into_game_node(self) -> cfr::GameNode<Self> {
+        let mut salt = self.1;
         match self.0 {
             HNode::Term(pay) => cfr::GameNode::Terminal(pay),
-            HNode::Chance { info, outs } => cfr::GameNode::Chance(info.map(WeakKey), outs.into_iter().map(|(w, n)| (w, WNode(n))).collect()),
-            HNode::Player { p, info, acts } => cfr::GameNode::Player(crate::tree::pnum(p as usize), WeakKey(info), acts.into_iter().map(|(a, n)| (WeakKey(a), WNode(n))).collect()),
+            HNode::Chance { info, outs } => {
+                let info = info.map(|i| weak(&i, &mut salt));
+                let kids: Vec<(f64, WNode)> = outs
+                    .into_iter()
+                    .map(|(w, n)| {
+                        salt = crate::rng::mix(salt);
+                        (w, WNode(n, salt))
+                    })
+                    .collect();
+                cfr::GameNode::Chance(info, NoHint(kids.into_iter()))
+            }
+            HNode::Player { p, info, acts } => {
+                let info = weak(&info, &mut salt);
+                let kids: Vec<(WeakKey, WNode)> = acts
+                    .into_iter()
+                    .map(|(a, n)| {
+                        let a = weak(&a, &mut salt);
+                        salt = crate::rng::mix(salt);
+                        (a, WNode(n, salt))
+                    })
+                    .collect();
+                cfr::GameNode::Player(crate::tree::pnum(p as usize), info, NoHint(kids.into_iter()))
+            }
         }
     }
 }
 
+/// false if two different names of the tree are equal ignoring case (the presentation through
+/// [WeakKey] would then be a different game)
+pub fn weak_presentable(tree: &HNode) -> bool {
+    fn collect(n: &HNode, out: &mut std::collections::HashSet<String>) {
+        match n {
+            HNode::Term(_) => {}
+            HNode::Chance { info, outs } => {
+                if let Some(i) = info {
+                    out.insert(format!("c:{}", i));
+                }
+                outs.iter().for_each(|(_, k)| collect(k, out));
+            }
+            HNode::Player { p, info, acts } => {
+                out.insert(format!("p{}:{}", p, info));
+                for (a, k) in acts {
+                    out.insert(format!("a:{}", a));
+                    collect(k, out);
+                }
+            }
+        }
+    }
+    let mut names = std::collections::HashSet::new();
+    collect(tree, &mut names);
+    let lower: std::collections::HashSet<String> = names.iter().map(|s| s.to_ascii_lowercase()).collect();
+    lower.len() == names.len()
+}
+
 pub fn build_weak(tree: &HNode) -> Result<Game<WeakKey, WeakKey>, GameError> {
-    Game::from_root(WNode(tree.clone()))
+    Game::from_root(WNode(tree.clone(), tree.structural_hash() | 1))
 }
 
 /// Profile as the public named view shows it (zero-probability actions omitted by the library
